@@ -10,6 +10,9 @@ divergence, curl, lie_bracket, jacobian_dict / jacobian_matrix, flow_derivatives
   repeated), scalar / per-axis / per-batch spacing, checked sample by sample (exact rationals) against the closed-form
   composition `for each letter of the sorted key: [smooth the other axes;] difference along that axis` -- the model of
   Model/FiniteDiff.v
+* spatial_derivatives(mode='gaussian') with the Gaussian kernels replaced by symbolic 3-tap kernels: every axis is
+  correlated (derivative kernel on the differentiated axis, replicate padding) and the result is divided by the spacing
+  of the differentiated axis -- in every mode the divisor of d/dx_a is spacing[a]
 * flow_derivatives: shorthand expansion, grouping per component, de-duplication of mixed keys: on symbolic fields the
   value returned for a key must not depend on which other keys were requested (subset = all restricted), and the
   returned keys are exactly the requested ones in order
@@ -243,6 +246,85 @@ def check_spatial_derivatives(img, kernels):
 
 
 # ------------------------------------------------------------------------------------------------
+# 2b. mode='gaussian': Gaussian kernels are replaced by symbolic 3-tap kernels (k0 = smoothing, k1 = derivative of
+#     Gaussian); the branch must be "for every letter of the sorted key: correlate every axis with k0, the differentiated
+#     axis with k1 (replicate padding), divide by the spacing OF THAT AXIS"
+# ------------------------------------------------------------------------------------------------
+def corr_line(k, l):
+    n = len(l)
+    c = lambda i: l[min(max(i, 0), n - 1)]
+    return [k[0] * c(i - 1) + k[1] * l[i] + k[2] * c(i + 1) for i in range(n)]
+
+
+def ref_gauss(arr, code, spacing, k0, k1):
+    D = arr.ndim
+    cur = arr
+    for letter in sorted(code):
+        sd = "xyz".index(letter)
+        for d in range(D):
+            cur = along(cur, D - 1 - d, lambda l, kk=(k1 if d == sd else k0): corr_line(kk, l))
+        cur = cur / spacing[sd] if False else np.vectorize(lambda v: v / spacing[sd], otypes=[object])(cur)
+    return cur
+
+
+def check_gaussian_mode(img):
+    rng = random.Random(9)
+    calls = []
+
+    def g0(sigma, *a, normalize=True, **kw):
+        calls.append(("g0", sigma, normalize))
+        return st.Tensor(np.array([E.var(f"k0_{i}") for i in range(3)], dtype=object))
+
+    def g1(sigma, *a, normalize=True, **kw):
+        calls.append(("g1", sigma, normalize))
+        return st.Tensor(np.array([E.var(f"k1_{i}") for i in range(3)], dtype=object))
+
+    with patched(img, "gaussian1d", g0), patched(img, "gaussian1d_I", g1):
+        for shape in ((3, 4), (3, 3, 3)):
+            D = len(shape)
+            letters = "xyz"[:D]
+            for N, form in ((1, "axis"), (2, "batch"), (1, "scalar"), (1, "none")):
+                data = sym((N, 1) + shape)
+                names = [v.args[0] for v in data.a.reshape(-1)]
+                env = {nm: Fraction(rng.randint(-9, 9), 2) for nm in names}
+                kenv = {f"k{j}_{i}": Fraction(rng.randint(1, 7), rng.choice([2, 3, 5])) for j in (0, 1) for i in range(3)}
+                env.update(kenv)
+                spv = [[Fraction(rng.choice([1, 2, 3, 5]), rng.choice([1, 2, 4])) for _ in range(D)] for _ in range(N)]
+                for r_ in spv:  # pairwise different spacings along the axes, so that a wrong axis shows
+                    for i in range(1, D):
+                        while r_[i] in r_[:i]:
+                            r_[i] += 1
+                if form == "none":
+                    spacing, spv = None, [[Fraction(1)] * D] * N
+                elif form == "scalar":
+                    spacing, spv = spv[0][0], [[spv[0][0]] * D] * N
+                elif form == "axis":
+                    spacing, spv = st.Tensor(st._lift_array(spv[0])), [spv[0]] * N
+                else:
+                    spacing = st.Tensor(st._lift_array(spv))
+                which = list(letters) + [letters[-1] + letters[0], letters[0] * 2]
+                r = img.spatial_derivatives(data, which=which, mode="gaussian", spacing=spacing)
+                if list(r.keys()) != which:
+                    raise TraceError(f"spatial_derivatives(gaussian): keys {list(r.keys())}")
+                k0 = [kenv[f"k0_{i}"] for i in range(3)]
+                k1 = [kenv[f"k1_{i}"] for i in range(3)]
+                for key, val in r.items():
+                    if val.shape != (N, 1) + shape:
+                        raise TraceError(f"spatial_derivatives(gaussian)[{key}] has shape {val.shape}")
+                    for b_ in range(N):
+                        arr = np.empty(shape, dtype=object)
+                        for idx in np.ndindex(shape):
+                            arr[idx] = env[data.a[(b_, 0) + idx].args[0]]
+                        want = ref_gauss(arr, key, spv[b_], k0, k1)
+                        for idx in np.ndindex(shape):
+                            if fr_eval(val.a[(b_, 0) + idx], env) != want[idx]:
+                                raise TraceError(f"spatial_derivatives(mode=gaussian, D={D}, spacing form {form})[{key}] at {idx} is not "
+                                                 "'correlate every axis (derivative kernel on the differentiated one), divide by the spacing "
+                                                 "of the differentiated axis'")
+    if not calls or any(c[2] is not False for c in calls):
+        raise TraceError("gaussian mode does not build its kernels with normalize=False")
+
+# ------------------------------------------------------------------------------------------------
 # 3. flow_derivatives: key parsing, grouping, de-duplication
 # ------------------------------------------------------------------------------------------------
 def expand_keys(D, which):
@@ -393,6 +475,7 @@ def generate(loader):
         s, _ = stencil_section(img)
         kernels = avg_kernels(img)
         check_spatial_derivatives(img, kernels)
+        check_gaussian_mode(img)
         check_flow_derivatives(flow_mod)
         f = formulas_section(flow_mod)
     out += s
